@@ -58,6 +58,13 @@ def db_text(rng, cls, side):
         two = (fmt % base) + ":" + (rng.choice(["%d", "%d.75", " %d"]) % (base + rng.randint(1, 50)))
         if rng.random() < 0.25:
             two = (fmt % base) + ":" + rng.choice(["%d", "%d.000", " %d"]) % base         # equal ends: still a range
+        q = rng.random()
+        if q < 0.12:
+            two = rng.choice(["0", "0.000", "0.0"]) + ":" + (fmt % base)                 # a range with a ZERO end is still a range
+        elif q < 0.2:
+            two = (fmt % base) + ":" + rng.choice(["0", "0.000"])
+        elif q < 0.26:
+            one = rng.choice(["0", "0.000"])                                             # ... and a static zero a static value
     if cls == "one":
         return one, [Decimal(one.strip())]
     if cls == "two":
@@ -130,6 +137,12 @@ def build(cfg, rng=None):
         else:
             chart["DISPLAYBPM"] = t
         exp["c"]["db"] = vals
+        if rng is not None and rng.random() < 0.4:
+            # chart properties that are NOT among the eleven never make the chart the source, whatever they hold
+            for k, v in (("ATTACKS", "TIME=1.000:LEN=2.000:MODS=drunk"), ("CREDIT", "someone"), ("CHARTSTYLE", "Pad"),
+                         ("RADARVALUES", "0.5,0.5,0.5,0.5,0.5"), ("MUSIC", "other.ogg"), ("XTIMING", "0=1")):
+                if rng.random() < 0.5:
+                    chart[k] = v
         if rng is None or rng.random() < 0.6:
             chart.move_to_end("NOTES")          # (otherwise the timing properties FOLLOW the note data: order is no part of the rule)
     return sf, chart, exp
